@@ -228,6 +228,12 @@ def _(n, T):
     return [F(n, "int", [P("a", "val", "int")], fid=n + "#i"), F(n, "int", [P("a", "val", "double"), P("b", "val", "int")], fid=n + "#di")]
 
 
+@shape("overload_default_mixed", langs=("c++",), wraps=("c", "fortran", "lua"), doc="tutorial.yaml UseDefaultOverload: an overload with a default argument next to one of the same minimal arity, different argument and result types")
+def _(n, T):
+    return [F(n, "double", [P("a", "val", "int"), P("x", "val", "double", default="1.5")], fid=n + "#id"),
+            F(n, "int", [P("flag", "val", "bool")], fid=n + "#b")]
+
+
 @shape("overload_sfx", langs=("c++",), wraps=ALLW, doc="tutorial.yaml OverloadedFunction")
 def _(n, T):
     return [F(n, "void", [P("name", "str_cref")], fid=n + "#s", yaml={"format": {"function_suffix": "_from_name"}}),
